@@ -224,6 +224,61 @@ func c14Bplus(c *Ctx) {
 			sinks++
 			cs := p.CondsAt(in.Block())
 			guarded := hasCond(cs, func(k Cond) bool { return isPrefixDerived(k.Atom) && isItem(k.Atom) })
+			if guarded {
+				// bounded on both sides: the walk's starting point bounds the key on one side only, the comparisons
+				// of the key's first byte with the prefix must supply the other (decided when every
+				// prefix comparison here is of that simple kind)
+				lower, upper, simple := false, false, true
+				for _, k := range cs {
+					if !(isPrefixDerived(k.Atom) && isItem(k.Atom)) {
+						continue
+					}
+					a := k.Atom
+					if (a.Op != "EQ" && a.Op != "LT") || len(a.Args) != 2 {
+						simple = false
+						continue
+					}
+					isK0 := func(t *Term) bool {
+						t = t.Strip()
+						return t.Op == "index" && isItem(t) && len(t.Args) == 2 && t.Args[1].Name == "0" && t.Args[0].IsField("Key", nil)
+					}
+					isPfx := func(t *Term) bool { return isPrefixDerived(t) && !isItem(t) && t.Strip().Op != "binop" }
+					switch {
+					case a.Op == "EQ" && (isK0(a.Args[0]) && isPfx(a.Args[1]) || isK0(a.Args[1]) && isPfx(a.Args[0])):
+						if k.Pol {
+							lower, upper = true, true
+						}
+					case a.Op == "LT" && isPfx(a.Args[0]) && isK0(a.Args[1]): // prefix < key0
+						if !k.Pol {
+							upper = true
+						}
+					case a.Op == "LT" && isK0(a.Args[0]) && isPfx(a.Args[1]): // key0 < prefix
+						if !k.Pol {
+							lower = true
+						}
+					default:
+						simple = false
+					}
+				}
+				if simple {
+					switch dir := btreeWalkDirection(p, fn); dir {
+					case "Ascend":
+						lower = true
+					case "Descend":
+						upper = true
+					case "":
+						simple = false
+					}
+				}
+				if simple && !(lower && upper) {
+					bad++
+					side := "below (an entry of a lower table is taken for this table's — e.g. the last key of an empty table)"
+					if lower {
+						side = "above"
+					}
+					c.Fail("R2", funcName(fn)+":result", in.Pos(), "an item of the shared tree is copied into the result with its key bounded by the table's prefix on one side only; nothing bounds it from "+side+" (conditions here: "+strings.Join(condStrings(cs), " ∧ ")+")")
+				}
+			}
 			if !guarded {
 				bad++
 				c.Fail("R2", funcName(fn)+":result", in.Pos(), "an item of the shared tree is copied into the result without a dominating comparison of its key with the table's prefix (conditions here: "+strings.Join(condStrings(cs), " ∧ ")+"): entries of a neighbouring table can be returned")
@@ -309,4 +364,39 @@ func c14Absence(c *Ctx) {
 			c.Check(len(why) == 0, "R5", funcName(fn), fn.Pos(), "missing ⇒ storage.ErrKeyNotFound, decided by nil-ness / iterator validity", strings.Join(why, "; "))
 		}
 	}
+}
+
+// btreeWalkDirection: "Ascend" / "Descend" when cb is the callback of a btree walk that starts at a pivot
+// (AscendGreaterOrEqual, DescendLessOrEqual, ...), "" when that cannot be told.
+func btreeWalkDirection(p *Program, cb *ssa.Function) string {
+	dir := ""
+	for _, fn := range p.ModFuncs {
+		if fn.Pkg != cb.Pkg {
+			continue
+		}
+		eachInstr(fn, func(in ssa.Instruction) {
+			cc := callCommon(in)
+			if cc == nil || cc.StaticCallee() == nil || cc.StaticCallee().Pkg == nil || !strings.Contains(cc.StaticCallee().Pkg.Pkg.Path(), "google/btree") {
+				return
+			}
+			name := cc.StaticCallee().Name()
+			for _, a := range cc.Args {
+				t := p.TermOf(a)
+				uses := false
+				if cl := t.Resolve("closure"); cl != nil && (cl.Fn == cb || boundTarget(cl.Fn) == cb) {
+					uses = true
+				}
+				if !uses {
+					continue
+				}
+				switch {
+				case strings.HasPrefix(name, "AscendGreaterOrEqual"), strings.HasPrefix(name, "AscendRange"):
+					dir = "Ascend"
+				case strings.HasPrefix(name, "DescendLessOrEqual"), strings.HasPrefix(name, "DescendRange"):
+					dir = "Descend"
+				}
+			}
+		})
+	}
+	return dir
 }
